@@ -26,6 +26,19 @@ type EnumSchema[S serializedEnumValue, T enumValue] struct {
 	ValidValuesMap map[T]*DisplayValue `json:"values"`
 }
 
+// withDisplayValues returns a copy of the valid values in which every value has display data: a value
+// declared without any (nil) gets an empty DisplayValue, so that the enum can describe itself.
+func withDisplayValues[T enumValue](validValues map[T]*DisplayValue) map[T]*DisplayValue {
+	result := make(map[T]*DisplayValue, len(validValues))
+	for value, display := range validValues {
+		if display == nil {
+			display = &DisplayValue{}
+		}
+		result[value] = display
+	}
+	return result
+}
+
 func (e EnumSchema[S, T]) ValidValues() map[T]*DisplayValue {
 	return e.ValidValuesMap
 }
